@@ -877,6 +877,7 @@ class DoIPTransport(BaseTransport, scheme="doip"):
             logger.debug("DoIP transport already closed")
             return
         self._is_closed = True
+        self.is_closed = True
         await self._conn.close()
 
     async def read(
